@@ -35,10 +35,91 @@ func c16Limbs(m *big.Int) []uint64 {
 var c16Extreme = append(append([]uint64{0, 1, 2, 1<<32 - 1, 1 << 32, 1<<32 + 1, 1 << 63, 1<<63 - 1, 1<<64 - 2, 1<<64 - 1},
 	c16Limbs(gen.P)...), c16Limbs(gen.N)...)
 
+// c16FirstInInterval returns the smallest x >= 0 with lo <= (a*x mod m) <= hi, or -1 (Euclid-like descent).
+func c16FirstInInterval(a, m, lo, hi *big.Int) *big.Int {
+	if lo.Sign() == 0 {
+		return big.NewInt(0)
+	}
+	a = new(big.Int).Mod(a, m)
+	if a.Sign() == 0 {
+		return big.NewInt(-1)
+	}
+	if new(big.Int).Lsh(a, 1).Cmp(m) > 0 {
+		lo, hi = new(big.Int).Sub(m, hi), new(big.Int).Sub(m, lo)
+		a = new(big.Int).Sub(m, a)
+	}
+	t := new(big.Int).Add(lo, a)
+	t.Sub(t, big.NewInt(1)).Div(t, a)
+	if new(big.Int).Mul(t, a).Cmp(hi) <= 0 {
+		return t
+	}
+	l2, h2 := new(big.Int).Mod(lo, a), new(big.Int).Mod(hi, a)
+	if l2.Cmp(h2) > 0 {
+		return big.NewInt(-1)
+	}
+	a2 := new(big.Int).Sub(a, new(big.Int).Mod(m, a))
+	y := c16FirstInInterval(a2, a, l2, h2)
+	if y.Sign() < 0 {
+		return y
+	}
+	r := new(big.Int).Mul(m, y)
+	r.Add(r, lo).Add(r, a).Sub(r, big.NewInt(1)).Div(r, a)
+	return r
+}
+
+// c16WordOfProduct returns a 64-bit limb x such that word k (0..4) of the 320-bit product x*c has the value target, or nil.
+// Word-by-word multiplication code forms exactly these products (operand limb times a multi-limb constant or the other operand);
+// a word equal to 2^64-1 or 0 is where a carry added in the wrong place is lost.
+func c16WordOfProduct(c *big.Int, k int, target uint64) *big.Int {
+	mod := new(big.Int).Lsh(big.NewInt(1), uint(64*(k+1)))
+	lo := new(big.Int).Lsh(new(big.Int).SetUint64(target), uint(64*k))
+	hi := new(big.Int).Add(lo, new(big.Int).Sub(new(big.Int).Lsh(big.NewInt(1), uint(64*k)), big.NewInt(1)))
+	x := c16FirstInInterval(c, mod, lo, hi)
+	if x.Sign() <= 0 || x.BitLen() > 64 {
+		return nil
+	}
+	return x
+}
+
 // c16Residue draws a canonical residue mod m; ext reports whether an extreme limb was used.
 func c16Residue(t *rapid.T, label string, m *big.Int) (v *big.Int, ext bool) {
-	cls := gen.Pick(t, label+".class", "limbs", "limbs", "uniform", "near")
+	cls := gen.Pick(t, label+".class", "limbs", "limbs", "uniform", "near", "word-of-product")
 	switch cls {
+	case "word-of-product":
+		// one limb of the value SOLVED so that a chosen word of (limb x constant) is 2^64-1 / 0 / ...; the constant is what the
+		// conversion into Montgomery form multiplies by (2^512 mod m), the modulus itself (reduction step), or a random operand
+		r := gen.Rand(t, label+".wseed")
+		var c *big.Int
+		switch gen.Pick(t, label+".const", "R^2", "R^2", "modulus", "operand") {
+		case "R^2":
+			c = new(big.Int).Mod(new(big.Int).Lsh(big.NewInt(1), 512), m)
+		case "modulus":
+			c = new(big.Int).Set(m)
+		default:
+			c = new(big.Int).SetBytes(gen.RandBytes(r, 32))
+			c.Mod(c, m)
+		}
+		k := gen.Uniform(t, label+".word", 0, 4)
+		target := []uint64{^uint64(0), ^uint64(0), ^uint64(0), 0, 1, 1 << 63, ^uint64(0) - 1}[gen.Uniform(t, label+".target", 0, 6)]
+		limb := c16WordOfProduct(c, k, target)
+		v = new(big.Int).SetBytes(gen.RandBytes(r, 32))
+		if limb != nil {
+			w := new(big.Int).Mul(limb, c)
+			w.Rsh(w, uint(64*k)).And(w, new(big.Int).SetUint64(^uint64(0)))
+			if w.Uint64() != target {
+				t.Fatalf("HARNESS: word-of-product solver gave limb %x for constant %x word %d target %x (got %x)", limb, c, k, target, w)
+			}
+			i := uint(gen.Uniform(t, label+".limbpos", 0, 3))
+			mask := new(big.Int).Lsh(new(big.Int).SetUint64(^uint64(0)), 64*i)
+			v.AndNot(v, mask).Or(v, new(big.Int).Lsh(limb, 64*i))
+			ext = true
+		}
+		if v.Cmp(m) >= 0 {
+			v.SetBit(v, 255, 0) // clear the top bit rather than reduce: the solved limb stays in place
+			if v.Cmp(m) >= 0 {
+				v.Mod(v, m)
+			}
+		}
 	case "limbs":
 		v = new(big.Int)
 		for i := 0; i < 4; i++ {
